@@ -19,7 +19,7 @@ PROPS = {
                 "abstract pool signature (per circuit: width, size, fixed?, gate-name set, variational?, symbolic?); "
                 "non-trivial = reached in a run with >=3 steps touching >=2 circuits or >=1 refusal.",
         "probes": ["C11.refusal_on_fixed_width", "C11.translate_multicontrolled_cnot", "C11.sympy_string_parameter",
-                   "C11.constructed_from_shared_gate_objects"],
+                   "C11.constructed_from_shared_gate_objects", "C11.iteration_abandoned_early"],
         "components_real": ["tangelo.linq.Gate", "tangelo.linq.Circuit", "tangelo.linq.circuit module functions",
                             "translate_circuit -> cirq, sympy, ionq, projectq, qdk", "cirq + sympy backends (read-only simulate)"],
         "components_stub": [],
